@@ -191,7 +191,7 @@ func m1vPkt(seq uint16, marker bool, b, e byte, body []byte) *rtp.Packet {
 	return &rtp.Packet{Header: rtp.Header{Version: 2, PayloadType: 32, SequenceNumber: seq, Timestamp: 9000, Marker: marker, SSRC: 1}, Payload: pl}
 }
 
-// m1vCorpus: the recorded failure shapes (repaired in f36684c / 0492fab / 6d01574), run first.
+// m1vCorpus: the recorded failure shapes (repaired in f36684c / e33085a / 85f0949), run first.
 func m1vCorpus(c *corr.Ctx) {
 	if !c.Want("C08") && !c.Want("C07") {
 		return
@@ -225,7 +225,7 @@ func m1vCorpus(c *corr.Ctx) {
 			seq++
 		}
 		cu.HostileStream(c, Mpeg1Video, inst, pkts, false, "mpeg1video-corpus-side-by-side", "full slice buffer next to a growing fragment list")
-		// fixed ea75fb6: header-only packets (4-byte payload) as following fragments / complete slices
+		// fixed 07ef6d1: header-only packets (4-byte payload) as following fragments / complete slices
 		pkts = []*rtp.Packet{m1vPkt(0, false, 1, 0, []byte{9})}
 		for i := 1; i <= 2000; i++ {
 			pkts = append(pkts, m1vPkt(uint16(i), false, 0, 0, nil))
